@@ -502,7 +502,7 @@ def gen_views(rng, world, kind):
     if kind == "attach":
         if len(n.views) >= 2 or getattr(n.primary, "shm", None) is None:
             return None
-        return {"op": "attach", "node": i, "how": "helper" if rng.random() < 0.4 else "method"}
+        return {"op": "attach", "node": i, "how": "helper" if rng.random() < 0.4 else "method", "own_args": rng.random() < 0.7}
     if kind == "drop_view":
         if not n.views:
             return None
